@@ -1313,7 +1313,9 @@ def to_big_endian(array, inplace=False, keep_dtype=False):
         # assume all are same byte order: we only need to find one with
         # little endian
         for fname in array.dtype.names:
-            if not is_big_endian(array[fname]):
+            # fields without a byte order (single byte, strings) do not
+            # tell us anything
+            if is_little_endian(array[fname]):
                 doswap = True
                 break
 
@@ -1360,7 +1362,9 @@ def to_little_endian(array, inplace=False, keep_dtype=False):
         # assume all are same byte order: we only need to find one with
         # little endian
         for fname in array.dtype.names:
-            if not is_little_endian(array[fname]):
+            # fields without a byte order (single byte, strings) do not
+            # tell us anything
+            if is_big_endian(array[fname]):
                 doswap = True
                 break
 
